@@ -36,7 +36,7 @@ def make_case(rng, b, cartesian):
         G = [[256, 0, 0], [0, 256, 0], [0, 0, 256]]          # a = 16 A, integer lattice matrix: Cartesian = k * a / N = k / 2
         M = np.diag([16.0, 16.0, 16.0])
     else:
-        fam = list(gen.FAMILIES)[b % 6]
+        fam = list(gen.FAMILIES)[b % len(gen.FAMILIES)]
         orient = ['chol', 'pmg', 'rot'][b % 3]
         G = gen.FAMILIES[fam]
         M = gen.lattice_matrix(G, orient, rng)
@@ -149,7 +149,7 @@ def run(rep):
         if not e['orth']:
             raise core.Machinery('point group operation not orthogonal')
         o = Orientations(traj, 'N', 'H')
-        vec = np.asarray(o.vectors)
+        vec = np.array(o.vectors, dtype=float, copy=True)
         T, nb = vec.shape[0], vec.shape[1]
         fr = vec @ np.linalg.inv(x['M']) * N
         k = np.rint(fr)
@@ -203,6 +203,9 @@ def run(rep):
                 if np.abs(tv - et).max() > 1e-9:
                     bad.append(('transform',))
                 nv = np.asarray(o.normalize().vectors)
+                lens2 = np.linalg.norm(np.asarray(o.vectors), axis=-1) ** 2 * N * N
+                if np.abs(lens2 - el).max() > 1e-6 * max(1.0, el.max()):
+                    bad.append(('bond-lengths-after-normalize',))
                 if np.abs(nv * 3 - k * 1.0).max() > 1e-9 or np.abs(np.linalg.norm(nv, axis=-1) - 1).max() > 1e-12:
                     bad.append(('normalize',))
                 acf = np.asarray(o.autocorrelation())          # [nb][T]
@@ -220,6 +223,9 @@ def run(rep):
                             bad.append(('autocorrelation', acf[0].tolist(), exact[0].tolist()))
                     else:
                         bad.append(('autocorrelation', acf[0].tolist(), exact[0].tolist()))
+                # the derived operations above must not have altered the object they were called on
+                if not np.array_equal(np.asarray(o.vectors), vec):
+                    bad.append(('vectors-changed-by-a-derived-operation',))
                 if abs(acf[:, 0] - 1).max() > 1e-12:
                     bad.append(('autocorrelation-not-one-at-lag-zero',))
         if bad:
